@@ -160,6 +160,25 @@ func init() {
 		Outside:   "more than k frames per stream; payload lengths between 4 and maxMessageSize-2; server call-site payload sizes",
 	})
 	reg(&Property{
+		ID: "C09",
+		Instances: func(tier string) []Instance {
+			out := []Instance{
+				inst("internal/receiver", "HDelete", "top", 1, "sub", 2),
+				inst("internal/receiver", "HDelete", "top", 2, "sub", 1),
+				inst("internal/receiver", "HDelete", "top", 3, "sub", 0),
+				inst("internal/receiver", "HFindInList", "k", 2),
+			}
+			if tier == "thorough" {
+				out = append(out, inst("internal/receiver", "HDelete", "top", 3, "sub", 1), inst("internal/receiver", "HDelete", "top", 2, "sub", 2), inst("internal/receiver", "HDelete", "top", 4, "sub", 0), inst("internal/receiver", "HFindInList", "k", 3))
+			}
+			return out
+		},
+		MustReach: []string{"deleted", "kept", "done", "member", "nonmember"},
+		Redirects: sym.VfsRedirects(),
+		Bounds:    "destination: up to `top` top-level entries (file or directory) with symbolic distinct one-letter names a..e, each directory with `sub` files with symbolic names; sender list = '.' + arbitrary subset + one name absent locally; dry-run and I/O-error flag symbolic; real io/fs.WalkDir over the model's fs.FS; findInFileList for all sorted lists of k names of 0..2 arbitrary bytes",
+		Outside:   "deeper nesting; names longer than one letter in the tree harness; exclude-rule protection on the receiving side (not implemented by the project: see known findings)",
+	})
+	reg(&Property{
 		ID: "C10",
 		Instances: func(tier string) []Instance {
 			out := []Instance{
@@ -198,9 +217,26 @@ func init() {
 	reg(&Property{
 		ID: "C15",
 		Instances: func(tier string) []Instance {
-			return []Instance{inst("internal/rsyncwire", "HInt64RoundTrip")}
+			out := []Instance{
+				inst("internal/rsyncwire", "HInt64RoundTrip"),
+				inst("internal/receiver", "HFlistDecode", "k", 1, "opts", -1, "same", 0),
+				inst("internal/receiver", "HFlistDecode", "k", 2, "opts", 31, "same", 31),
+				inst("internal/receiver", "HFlistDecode", "k", 2, "opts", 4, "same", 16),
+			}
+			if tier == "thorough" {
+				out = append(out,
+					inst("internal/receiver", "HFlistDecode", "k", 2, "opts", 31, "same", 0),
+					inst("internal/receiver", "HFlistDecode", "k", 2, "opts", 0, "same", 3),
+					inst("internal/receiver", "HFlistDecode", "k", 2, "opts", 21, "same", 21),
+					inst("internal/receiver", "HFlistDecode", "k", 2, "opts", 10, "same", 10),
+					inst("internal/receiver", "HFlistDecode", "k", 3, "opts", 4, "same", 16),
+				)
+			}
+			return out
 		},
-		MustReach: []string{"short", "long"},
-		Bounds:    "all 64-bit values",
+		Redirects: sym.VfsRedirects(),
+		MustReach: []string{"short", "long", "done", "samename", "rdev", "target"},
+		Bounds:    "integers: all 64-bit values. decoder: lists of k entries built by an independent protocol-27 reference encoder; all field values symbolic (64-bit lengths incl. the 12-byte form, int32 mtime/uid/gid/rdev, all 7 types, all permission bits, names of 1..k bytes incl. bytes >= 0x80 with symbolic shared-prefix compression), option sets and 'same as previous' flag masks per instance (k=1: every option subset)",
+		Outside:   "lists longer than k; names containing '/' or '.' (name sanitising is C05's subject); duplicate names; not every combination of option subset x same-flag mask for k >= 2 (the listed masks)",
 	})
 }
